@@ -259,30 +259,72 @@ theorem C09_step_cr {norm : Text → Text} {o : Op} {u T : Text} (hcr : NoCR u) 
   rw [hT, C09L.fold_cr hcr', C09L.fold_cr hcr]
   exact ⟨rfl, rfl, C09_step (o := { o with skipExisting := false }) ha hg⟩
 
-/-- **A history on a CRLF file.**  The file starts as the CRLF form of an LF text `u`; every invocation that writes is good (for
-    `C09_step`) at the LF text behind the file and writes no carriage return of its own (`Spec.GoodRunForm`).  Then the file
-    stays the CRLF form of an LF text throughout (`runLF`), lint's decoder reads that LF text, and it declares everything
-    `u` declared and everything requested by every successful step. -/
-theorem C09_history_crlf {norm : Text → Text} (u : Text) (ops : List Op) (hg : GoodRunForm norm toCRLF u ops)
+/-- **A writing step on a CRLF / CR file is the step on the LF text behind it** (`f` = `toCRLF` or `toCR`, see
+    `C09_leform`): the same invocation, without `--skip-existing`, writes `t'` for `u`, the file afterwards is the form of
+    `t'`, and lint's decoder reads `u` before and — when the template wrote no carriage return — `t'` after.  Every step
+    theorem for LF texts (`C09_step`, `C09_step_contributors`, `C09_step_merge`, `C09_step_transfer`) therefore speaks
+    about the file; `C09_step_crlf` / `_cr` spell this out for `C09_step`. -/
+theorem C09_step_form {f : Text → Text} (hf : C09L.LEForm f) {o : Op} {u T : Text} (hcr : NoCR u) (hlf : '\n' ∈ u)
+    (hw : annotateText o.c o.replace o.skipExisting o.info (f u) = .written T) :
+    ∃ t', annotateText o.noSkip.c o.noSkip.replace o.noSkip.skipExisting o.noSkip.info u = .written t' ∧ T = f t' ∧
+      foldLineEndings (f u) = u ∧ (NoCR t' → foldLineEndings T = t') := by
+  obtain ⟨ha, hT, _⟩ := C09L.step_form hf hcr hlf hw
+  exact ⟨_, ha, hT, hf.fold u hcr, fun h => by rw [hT]; exact hf.fold _ h⟩
+
+/-- the two line-ending forms: annotating the form gives the form of the result (C08), the decoder folds it back -/
+theorem C09_leform : C09L.LEForm toCRLF ∧ C09L.LEForm toCR := ⟨C09L.leForm_crlf, C09L.leForm_cr⟩
+
+/-- **A history on a CRLF / CR file is the history of the LF text behind it.**  The file starts as the form `f u` of an LF
+    text; no writing step writes a carriage return of its own (`Spec.CleanRun`).  Then the file stays the form of an LF text,
+    namely of `run u (lfOps f u ops)` — the same invocations, those that wrote, without `--skip-existing` —, lint's decoder
+    reads that text, and the requests that count are the same.  So `C09_history`, `C09_history_contributors` and
+    `C09_history_merge`, applied to `u` and `lfOps f u ops`, speak about what lint reads from the file; `C09_history_crlf`
+    / `_cr` spell this out. -/
+theorem C09_history_form {f : Text → Text} (hf : C09L.LEForm f) (u : Text) (ops : List Op)
+    (hg : CleanRun f u ops) (hcr : NoCR u) (hlf : '\n' ∈ u) :
+    run (f u) ops = f (run u (lfOps f u ops)) ∧ foldLineEndings (run (f u) ops) = run u (lfOps f u ops) ∧
+    foldLineEndings (f u) = u ∧
+    accumulated (f u) ops = accumulated u (lfOps f u ops) ∧ accumulatedCon (f u) ops = accumulatedCon u (lfOps f u ops) := by
+  obtain ⟨h1, h2, h3, h4⟩ := C09L.history_form hf u ops hg hcr hlf
+  exact ⟨h1, h2, hf.fold u hcr, h3, h4⟩
+
+/-- **A history on a CRLF file**: what lint's decoder reads from the file after the history declares everything it read
+    before and everything requested by a successful step — licence expressions, the same holders, every year stated before
+    covered (and, when no step merges, every notice verbatim: second part). -/
+theorem C09_history_crlf {norm : Text → Text} (u : Text) (ops : List Op) (hc : CleanRun toCRLF u ops)
     (hcr : NoCR u) (hlf : '\n' ∈ u) :
-    run (toCRLF u) ops = toCRLF (runLF toCRLF u ops) ∧
-    Declares norm (extractRaw (foldLineEndings (run (toCRLF u) ops)))
-      ((extractRaw (foldLineEndings (toCRLF u))).cpr ++ (accumulated (toCRLF u) ops).1)
-      ((extractRaw (foldLineEndings (toCRLF u))).lic ++ (accumulated (toCRLF u) ops).2) := by
-  obtain ⟨h1, h2, h3⟩ := C09L.history_form C09L.leForm_crlf u ops hg hcr hlf
-  rw [h2, C09L.fold_crlf hcr]
-  exact ⟨h1, h3⟩
+    (GoodRunAny norm u (lfOps toCRLF u ops) →
+      (∀ x, x ∈ (extractRaw (foldLineEndings (toCRLF u))).lic ∨ x ∈ (accumulated (toCRLF u) ops).2 →
+        norm x ∈ (extractRaw (foldLineEndings (run (toCRLF u) ops))).lic.map norm) ∧
+      (∀ s, s ∈ holdersOf ((extractRaw (foldLineEndings (toCRLF u))).cpr ++ (accumulated (toCRLF u) ops).1) →
+        s ∈ holdersOf (extractRaw (foldLineEndings (run (toCRLF u) ops))).cpr) ∧
+      (∀ s z, z ∈ yearsIn ((extractRaw (foldLineEndings (toCRLF u))).cpr ++ (accumulated (toCRLF u) ops).1) s →
+        YearCovered (extractRaw (foldLineEndings (run (toCRLF u) ops))).cpr s z)) ∧
+    (GoodRunFull norm u (lfOps toCRLF u ops) →
+      Declares norm (extractRaw (foldLineEndings (run (toCRLF u) ops)))
+        ((extractRaw (foldLineEndings (toCRLF u))).cpr ++ (accumulated (toCRLF u) ops).1)
+        ((extractRaw (foldLineEndings (toCRLF u))).lic ++ (accumulated (toCRLF u) ops).2)) := by
+  obtain ⟨_, h2, h3, h4, _⟩ := C09_history_form C09L.leForm_crlf u ops hc hcr hlf
+  rw [h2, h3, h4]
+  exact ⟨fun hg => C09L.history_any u _ hg, fun hg => C09_history u _ hg⟩
 
 /-- **A history on a CR file.** -/
-theorem C09_history_cr {norm : Text → Text} (u : Text) (ops : List Op) (hg : GoodRunForm norm toCR u ops)
+theorem C09_history_cr {norm : Text → Text} (u : Text) (ops : List Op) (hc : CleanRun toCR u ops)
     (hcr : NoCR u) (hlf : '\n' ∈ u) :
-    run (toCR u) ops = toCR (runLF toCR u ops) ∧
-    Declares norm (extractRaw (foldLineEndings (run (toCR u) ops)))
-      ((extractRaw (foldLineEndings (toCR u))).cpr ++ (accumulated (toCR u) ops).1)
-      ((extractRaw (foldLineEndings (toCR u))).lic ++ (accumulated (toCR u) ops).2) := by
-  obtain ⟨h1, h2, h3⟩ := C09L.history_form C09L.leForm_cr u ops hg hcr hlf
-  rw [h2, C09L.fold_cr hcr]
-  exact ⟨h1, h3⟩
+    (GoodRunAny norm u (lfOps toCR u ops) →
+      (∀ x, x ∈ (extractRaw (foldLineEndings (toCR u))).lic ∨ x ∈ (accumulated (toCR u) ops).2 →
+        norm x ∈ (extractRaw (foldLineEndings (run (toCR u) ops))).lic.map norm) ∧
+      (∀ s, s ∈ holdersOf ((extractRaw (foldLineEndings (toCR u))).cpr ++ (accumulated (toCR u) ops).1) →
+        s ∈ holdersOf (extractRaw (foldLineEndings (run (toCR u) ops))).cpr) ∧
+      (∀ s z, z ∈ yearsIn ((extractRaw (foldLineEndings (toCR u))).cpr ++ (accumulated (toCR u) ops).1) s →
+        YearCovered (extractRaw (foldLineEndings (run (toCR u) ops))).cpr s z)) ∧
+    (GoodRunFull norm u (lfOps toCR u ops) →
+      Declares norm (extractRaw (foldLineEndings (run (toCR u) ops)))
+        ((extractRaw (foldLineEndings (toCR u))).cpr ++ (accumulated (toCR u) ops).1)
+        ((extractRaw (foldLineEndings (toCR u))).lic ++ (accumulated (toCR u) ops).2)) := by
+  obtain ⟨_, h2, h3, h4, _⟩ := C09_history_form C09L.leForm_cr u ops hc hcr hlf
+  rw [h2, h3, h4]
+  exact ⟨fun hg => C09L.history_any u _ hg, fun hg => C09_history u _ hg⟩
 
 /-- an LF file is read as it is -/
 theorem C09_fold_lf {u : Text} (hcr : NoCR u) : foldLineEndings u = u := C09L.fold_lf hcr
@@ -428,7 +470,7 @@ example : lineEnded "a\n".toList = true ∧ lineEnded "a".toList = false := by d
 example : ¬ EndGuarded (.star (.cls false [('\n', '\n')])) := by decide
 example (t : Text) : GoodRunFull id t [] := GoodRunFull.nil t
 example (t : Text) : GoodRunAny id t [] := GoodRunAny.nil t
-example (u : Text) : GoodRunForm id toCRLF u [] := GoodRunForm.nil u
+example (u : Text) : CleanRun toCRLF u [] := CleanRun.nil u
 example : endYears ["2019".toList, "2023".toList, "２０１６".toList] = ["２０１６".toList, "2023".toList] := by decide
 
 end C09
